@@ -78,15 +78,25 @@ ConvP(ty, v) ==
   ELSE CASE IsS(ty) -> ConvK(ty.c, v)
          [] IsV(ty) -> VecOf([i \in 1..ty.r |-> ConvK(ty.c, v.c[i])])
          [] IsM(ty) -> MatOf([i \in 1..ty.r |-> [j \in 1..ty.n |-> ConvK(ty.c, v.c[i][j])]])
+\* the same for a store / return (ConvA: a fraction stored into an integer is fixed by no property)
+ConvPA(ty, v) ==
+  IF IsBad(v) THEN v
+  ELSE IF ~IsPrimV(v) THEN ILL
+  ELSE IF ~SameShape(TypeOfVal(v), ty) THEN ILL
+  ELSE CASE IsS(ty) -> ConvA(ty.c, v)
+         [] IsV(ty) -> VecOf([i \in 1..ty.r |-> ConvA(ty.c, v.c[i])])
+         [] IsM(ty) -> MatOf([i \in 1..ty.r |-> [j \in 1..ty.n |-> ConvA(ty.c, v.c[i][j])]])
 \* convert v for a store into a slot that currently holds `old` (the slot's type is the type of its value)
 ConvLike(old, v) == IF IsBad(v) THEN v
-                    ELSE IF IsPrimV(old) THEN ConvP(TypeOfVal(old), v)
+                    ELSE IF IsPrimV(old) THEN ConvPA(TypeOfVal(old), v)
                     ELSE IF old.t = v.t THEN v ELSE ILL
 \* convert v to a declared type (parameters, return values, declarations)
 ConvT(t, v) == IF IsBad(v) THEN v
                ELSE IF IsPrimT(t) THEN ConvP(PT(t), v)
                ELSE IF t.k = "void" THEN (IF v.t = "void" THEN v ELSE ILL)
                ELSE IF (t.k = "arr" /\ v.t = "arr") \/ (t.k = "struct" /\ v.t = "struct") THEN v ELSE ILL
+
+ConvTA(t, v) == IF IsBad(v) THEN v ELSE IF IsPrimT(t) THEN ConvPA(PT(t), v) ELSE ConvT(t, v)
 
 ZeroK(c) == IF c = "float" THEN [t |-> "float", n |-> 0, e |-> 0] ELSE [t |-> c, v |-> 0]
 RECURSIVE Zero(_), ZeroArr(_, _)
@@ -193,11 +203,11 @@ Upd(cur, path, idxs, v) ==
          ELSE IF \E j, l \in 1..Len(m) : j # l /\ m[j] = m[l] THEN ILL          \* a repeated component in a write mask
          ELSE IF Len(m) = 1 THEN
               (IF ~IsNum(v) THEN ILL ELSE
-               LET c == ConvK(cur.c[1].t, v) IN IF IsBad(c) THEN c ELSE [cur EXCEPT !.c[m[1] + 1] = c])
+               LET c == ConvA(cur.c[1].t, v) IN IF IsBad(c) THEN c ELSE [cur EXCEPT !.c[m[1] + 1] = c])
          ELSE IF v.t # "vec" \/ Len(v.c) # Len(m) THEN ILL
          ELSE VecOf([i \in 1..Len(cur.c) |->
                        IF \E j \in 1..Len(m) : m[j] = i - 1
-                       THEN ConvK(cur.c[1].t, v.c[CHOOSE j \in 1..Len(m) : m[j] = i - 1])
+                       THEN ConvA(cur.c[1].t, v.c[CHOOSE j \in 1..Len(m) : m[j] = i - 1])
                        ELSE cur.c[i]])
 
 -----------------------------------------------------------------------------
@@ -448,7 +458,7 @@ Step ==
                  /\ UNCHANGED <<globals, status, ret, calls>>
             ELSE Fail("noreturn")
        [] it.k \in {"doret", "doretvoid"} ->
-            LET v == IF it.k = "doret" THEN ConvT(Funcs[Top.fn].ret, vals[1]) ELSE VOID
+            LET v == IF it.k = "doret" THEN ConvTA(Funcs[Top.fn].ret, vals[1]) ELSE VOID
                 vrest == IF it.k = "doret" THEN Tail(vals) ELSE vals IN
             IF it.k = "doretvoid" /\ Funcs[Top.fn].ret.k # "void" THEN Fail("noreturn")
             ELSE IF IsBad(v) THEN FailBad(v)
